@@ -259,15 +259,37 @@ def check_uci(ctx, p):
             got = effects_under(u, kids(u.body), {'castling(move)': c_, '_current_side': sd, 'promotion(move)': 0}, keep=('str',))
             _seq(ctx, 'C16.R5.uci-print', 'castling=%d,side=%d' % (c_, sd), got, ['return ' + T(names[sd])], u.loc(),
                  'castling is printed as the king\'s move of the side to move')
+    s2n = False
+    sd = [n for n in u.all_nodes() if n['k'] == 'VarDecl' and n.get('name') == 'str' and kids(n)]
+    str_init = Norm(u).s(kids(sd[0])[0]) if len(sd) == 1 else None
     for kind in ('NO_PIECE_KIND', 'KNIGHT', 'BISHOP', 'ROOK', 'QUEEN'):
         got = effects_under(u, kids(u.body), {'castling(move)': 0, '_current_side': 0, 'promotion(move)': pk[kind]}, keep=('str',))
+        if str_init is not None and 'squareToNotation' in str_init:
+            # std::string str = squareToNotation(a) + squareToNotation(b);
+            m_ = re.fullmatch(r'\(?squareToNotation\((.*?)\)\+squareToNotation\((.*?)\)\)?', str_init.replace('operator+', '+'))
+            parts = re.findall(r'squareToNotation\(((?:[^()]|\([^()]*\))*)\)', str_init)
+            got = ['(str+=squareToNotation(%s))' % a_ for a_ in parts] + got
         want = ['(str+=%s[file(from(move))])' % T('abcdefgh'), '(str+=%s[rank(from(move))])' % T('12345678'),
                 '(str+=%s[file(to(move))])' % T('abcdefgh'), '(str+=%s[rank(to(move))])' % T('12345678')]
+        # second spelling: the two squares through squareToNotation (checked below to be file letter + rank digit)
+        if got and got[0] not in want:
+            s2n = True
+            want = []
+            if any(g.startswith('(str+=squareToNotation(') for g in got):
+                want = ['(str+=squareToNotation(from(move)))', '(str+=squareToNotation(to(move)))']
         if kind != 'NO_PIECE_KIND':
             want.append('(str+=%s[%d])' % (T(promos), pk[kind]))
         want.append('return str')
         _seq(ctx, 'C16.R5.uci-print', 'promotion=%s' % kind, got, want, u.loc(),
              'an ordinary move is printed as origin file, origin rank, target file, target rank and, only for a promotion, its letter')
+    if s2n or (str_init is not None and 'squareToNotation' in str_init):
+        s2 = p.fn('engine::squareToNotation')
+        ctx.analysed(s2)
+        rv = [n for n in s2.all_nodes() if n['k'] == 'ReturnStmt' and kids(n)]
+        e2 = effects_under(s2, kids(s2.body), {}, keep=('s', 'str', 'result', 'notation'))
+        e2 = [re.sub(r'^\((\w+)\+=', '(S+=', x) for x in e2]
+        ok2 = e2[:2] == ['(S+=%s[file(sq)])' % T('abcdefgh'), '(S+=%s[rank(sq)])' % T('12345678')] and len(e2) == 3 and e2[2].startswith('return ')
+        ctx.ob('C16.R5.uci-print', 'squareToNotation', ok2, 'a square is written as its file letter followed by its rank digit (%s)' % e2, site=s2.loc())
     # parser: the fifth character
     letters = {'n': 'KNIGHT', 'b': 'BISHOP', 'r': 'ROOK', 'q': 'QUEEN'}
     base = {'make_piece_kind(_board[from])': pk['KNIGHT'], 'get_piece_kind(_board[from])': pk['KNIGHT'], 'from': 12, 'to': 20,
